@@ -27,6 +27,7 @@ import (
 	"sort"
 	"strings"
 	"sync"
+	"sync/atomic"
 	"testing"
 	"testing/synctest"
 	"time"
@@ -246,6 +247,69 @@ func readSeries(sh *tsdb.Shard, series string, hooks bool) ([]Pt, error) {
 	return out, fc.Err()
 }
 
+// readTwo is the read operation of the scenarios: like a query it holds two cursors at once. It opens a
+// cursor over s1, then (while that cursor holds its TSM references) a cursor over the control series s2,
+// iterates both to the end and closes them; there are explicit scheduling points while cursors are open.
+func readTwo(sh *tsdb.Shard) (p1, p2 []Pt, err error) {
+	ctx := context.Background()
+	open := func(series string) (tsdb.FloatArrayCursor, error) {
+		name, tags := models.ParseKey([]byte(series))
+		it, err := sh.CreateCursorIterator(ctx)
+		if err != nil {
+			return nil, err
+		}
+		cur, err := it.Next(ctx, &tsdb.CursorRequest{Name: []byte(name), Tags: tags, Field: fld, Ascending: true, StartTime: models.MinNanoTime, EndTime: models.MaxNanoTime})
+		if err != nil || cur == nil {
+			return nil, err
+		}
+		fc, ok := cur.(tsdb.FloatArrayCursor)
+		if !ok {
+			cur.Close()
+			return nil, fmt.Errorf("cursor of type %T", cur)
+		}
+		return fc, nil
+	}
+	drain := func(fc tsdb.FloatArrayCursor) ([]Pt, error) {
+		var out []Pt
+		if fc == nil {
+			return nil, nil
+		}
+		for {
+			vrt.Hook("read:cursor-open")
+			a := fc.Next()
+			if a.Len() == 0 {
+				break
+			}
+			for i := range a.Timestamps {
+				out = append(out, Pt{a.Timestamps[i], a.Values[i]})
+			}
+		}
+		return out, fc.Err()
+	}
+	c1, err := open(s1)
+	if err != nil {
+		return nil, nil, err
+	}
+	if c1 != nil {
+		defer c1.Close()
+	}
+	vrt.Hook("read:cursor-open")
+	c2, err := open(s2)
+	if err != nil {
+		return nil, nil, err
+	}
+	if c2 != nil {
+		defer c2.Close()
+	}
+	if p1, err = drain(c1); err != nil {
+		return nil, nil, err
+	}
+	if p2, err = drain(c2); err != nil {
+		return nil, nil, err
+	}
+	return p1, p2, nil
+}
+
 // readTSMDir returns the points of s1 stored in the TSM files of dir (a snapshot directory), tombstones
 // applied, later files overriding earlier ones.
 func readTSMDir(dir string) ([]Pt, error) {
@@ -413,32 +477,61 @@ var pairKinds = []string{"compact-level", "compact-full", "backup", "snapshot", 
 
 func needsTSM(k string) bool { return strings.HasPrefix(k, "compact") }
 
-// pairScenarios: thorough = every unordered pair (self-pairs included) on every layout. quick = every pair
-// on the 1-TSM layout; on the other two layouts only the pairs of different operations that contain a
-// delete, a read or a close.
+// pairScenarios. The first operation of a scenario is thread 0, the thread the default schedule runs first;
+// with one deviation the other operation runs as a block at a branching point of thread 0.
+// thorough = every unordered pair (self-pairs included) on every layout (two deviations cover both orders).
+// quick = on the 1-TSM layout every ORDERED pair of different operations plus the self-pairs; on the other two
+// layouts both orders of a core set of pairs.
 func pairScenarios(thorough bool) []Scenario {
 	var out []Scenario
-	core := func(k string) bool { return k == "delete" || k == "read" || k == "close" }
-	for _, lay := range layouts {
-		for i, a := range pairKinds {
-			for j := i; j < len(pairKinds); j++ {
-				b := pairKinds[j]
-				if lay == "cache" && (needsTSM(a) || needsTSM(b)) {
-					continue // nothing to compact without a TSM file
-				}
-				if !thorough && lay != "tsm+cache" && (a == b || !(core(a) || core(b))) {
-					continue
-				}
-				if a == b {
-					switch a {
-					case "write":
-						b = "write2" // the second writer writes other values
-					case "compact-level", "compact-full":
-						continue // level||full on the same group is the pair (compact-level, compact-full)
+	self := func(a string) (string, bool) {
+		switch a {
+		case "write":
+			return "write2", true // the second writer writes other values
+		case "compact-level", "compact-full":
+			return "", false // level||full on the same group is the pair (compact-level, compact-full)
+		}
+		return a, true
+	}
+	if thorough {
+		for _, lay := range layouts {
+			for i, a := range pairKinds {
+				for j := i; j < len(pairKinds); j++ {
+					b := pairKinds[j]
+					if lay == "cache" && (needsTSM(a) || needsTSM(b)) {
+						continue // nothing to compact without a TSM file
 					}
+					if a == b {
+						var ok bool
+						if b, ok = self(a); !ok {
+							continue
+						}
+					}
+					out = append(out, Scenario{Layout: lay, Ops: []string{a, b}})
 				}
-				out = append(out, Scenario{Layout: lay, Ops: []string{a, b}})
 			}
+		}
+		return out
+	}
+	for _, a := range pairKinds {
+		for _, b := range pairKinds {
+			if a == b {
+				if b2, ok := self(a); ok {
+					out = append(out, Scenario{Layout: "tsm+cache", Ops: []string{a, b2}})
+				}
+				continue
+			}
+			out = append(out, Scenario{Layout: "tsm+cache", Ops: []string{a, b}})
+		}
+	}
+	core := [][2]string{{"snapshot", "delete"}, {"delete", "read"}, {"read", "close"}, {"backup", "close"}, {"delete", "close"},
+		{"compact-level", "delete"}, {"compact-level", "read"}, {"compact-full", "snapshot"}}
+	for _, lay := range []string{"cache", "2tsm+cache"} {
+		for _, p := range core {
+			if lay == "cache" && (needsTSM(p[0]) || needsTSM(p[1])) {
+				continue
+			}
+			out = append(out, Scenario{Layout: lay, Ops: []string{p[0], p[1]}}, Scenario{Layout: lay, Ops: []string{p[1], p[0]}})
 		}
 	}
 	return out
@@ -506,6 +599,7 @@ type opRec struct {
 	err       string
 	pts       []Pt // observation of a read / successful CreateSnapshot
 	observed  bool
+	ctlPts    []Pt // read: what the second cursor (control series s2) returned
 	weakPts   []Pt // content of a tar backup (weak check only)
 	weakSeen  bool
 	panicked  string
@@ -519,6 +613,8 @@ type result struct {
 	verdicts []verdict
 	outcome  string
 	fatal    bool // deadlock / panic / step cap: fixture abandoned
+	diverged bool
+	threadG  map[int64]bool // goroutine ids of the operation threads (scheduled mode)
 }
 
 var dirRe = regexp.MustCompile(`/dev/shm/[^\s":]*c39-[0-9]+`)
@@ -605,9 +701,10 @@ func body(sc Scenario, x *vrt.Exec, res *result) {
 			op = func() error { return writePts(sh, s1, writeB...) }
 		case "read":
 			op = func() error {
-				pts, err := readSeries(sh, s1, true)
+				p1, p2, err := readTwo(sh)
 				if err == nil {
-					rec.pts, rec.observed = pts, true
+					rec.pts, rec.observed = p1, true
+					rec.ctlPts = p2
 				}
 				return err
 			}
@@ -615,18 +712,18 @@ func body(sc Scenario, x *vrt.Exec, res *result) {
 			op = func() error { return deleteRange(sh, delMin, delMax, s1) }
 		case "snapshot":
 			// one tick of Engine.compactCache: counted in snapWG like that goroutine
-			eng.VerifSnapTickBegin()
+			tickEnd := eng.VerifSnapTickBegin()
 			op = func() error {
-				defer eng.VerifSnapTickEnd()
+				defer tickEnd()
 				return eng.WriteSnapshot()
 			}
 		case "compact-level", "compact-full":
 			// the goroutine Engine.compact starts for a planned group: counted in e.wg (wg.Add before `go`),
 			// runs levelCompactionStrategy / fullCompactionStrategy(group).Apply()
-			eng.VerifLevelTickBegin()
+			tickEnd := eng.VerifLevelTickBegin()
 			full := kind == "compact-full"
 			op = func() error {
-				defer eng.VerifLevelTickEnd()
+				defer tickEnd()
 				if full {
 					eng.VerifApplyFullCompaction(group)
 				} else {
@@ -659,6 +756,9 @@ func body(sc Scenario, x *vrt.Exec, res *result) {
 			return
 		}
 		fn := func() {
+			if res.threadG != nil {
+				res.threadG[vrt.GoID()] = true
+			}
 			vrt.Hook("call:" + rec.name)
 			rec.call = tick()
 			defer func() {
@@ -682,15 +782,26 @@ func body(sc Scenario, x *vrt.Exec, res *result) {
 	if x != nil {
 		x.S.MaxSteps = 20000
 		x.Run()
+		if x.S.Diverged != "" {
+			// the recorded prefix could not be replayed (harness problem, reported by the caller): abandon
+			res.fatal, res.diverged = true, true
+			x.S.Abort()
+			return
+		}
 		if x.S.Deadlock || x.S.StepCap {
 			if x.S.Deadlock {
+				// only the operation threads: which background goroutines woke up during the 24h horizon varies
 				var bl []string
 				for _, b := range x.S.Blocked {
-					bl = append(bl, dirRe.ReplaceAllString(b, "$$DIR"))
+					for _, r := range recs {
+						if strings.HasPrefix(b, r.name+"(") {
+							bl = append(bl, dirRe.ReplaceAllString(b, "$$DIR"))
+						}
+					}
 				}
-				add("deadlock", "nothing enabled and not every thread finished: "+strings.Join(bl, "; "))
+				add("deadlock/"+sc.opsKey(), "nothing is enabled and not every operation finished within the fake-time horizon (24h): "+strings.Join(bl, "; "))
 			} else {
-				add("livelock", "step cap of 20000 scheduling steps reached")
+				add("livelock/"+sc.opsKey(), "step cap of 20000 scheduling steps reached")
 			}
 			// parked threads may hold modelled locks: make them exit (deferred unlocks run) and abandon the fixture
 			res.fatal = true
@@ -869,6 +980,15 @@ func body(sc Scenario, x *vrt.Exec, res *result) {
 		}
 	}
 	for _, r := range recs {
+		if r.kind == "read" && r.observed && fmtPts(r.ctlPts) != "1=1 2=2" {
+			where := sc.opsKey()
+			for _, o := range recs {
+				if o.kind == "close" && r.ret > o.call {
+					where = "overlaps-Shard.Close"
+				}
+			}
+			add("point-missing/concurrent-read/"+where, fmt.Sprintf("%s: the cursor over the control series s2 (touched by no operation) returned [%s], want [1=1 2=2]", r.name, fmtPts(r.ctlPts)))
+		}
 		if r.observed {
 			chk(r.kind, r.pts)
 		}
@@ -1144,27 +1264,66 @@ func branchWide(kind vrt.OpKind, label string) bool {
 		strings.Contains(label, "(*KeyCursor)") || strings.Contains(label, "(*purger)") || strings.Contains(label, "(*WAL)")
 }
 
+// hangTimeout is the real-time watchdog of one execution. Threads blocked on modelled locks are found by
+// the scheduler (deadlock verdict); the watchdog is for goroutines blocked where the scheduler cannot see
+// them (a real mutex during open / close / the sequential epilogue), which would otherwise hang the worker.
+const hangTimeout = 60 * time.Second
+
+var hung atomic.Bool // an execution of this process hangs: stop exploring (every further one would cost the timeout)
+
+func hangResult(sc Scenario, prefix []int) (*vrt.Result, *result) {
+	hung.Store(true)
+	return &vrt.Result{Choices: prefix}, &result{fatal: true, verdicts: []verdict{{"hang/" + sc.opsKey(),
+		"the execution did not finish within the real-time watchdog: goroutines are blocked outside the scheduler (e.g. on a mutex while the shard is opened, closed or read sequentially)"}}}
+}
+
 func runScheduled(t *testing.T, sc Scenario, wide bool, prefix []int) (*vrt.Result, *result) {
 	res := &result{}
 	flt := branchNarrow
 	if wide {
 		flt = branchWide
 	}
-	h := &vrt.Harness{Name: sc.String(), Filter: flt, DeviationCost: true, Body: func(x *vrt.Exec) { body(sc, x, res) }}
-	r := vrt.RunOnce(t, h, prefix)
-	return r, res
+	// Schedules branch only at operations executed by the operation threads themselves. The worker goroutines
+	// they start (ring.apply, FileStore.Apply, Compactor.write, WAL sync, ...) and the engine's background
+	// goroutines are scheduled too, but as forced moves: whenever one of them can take a step it takes it
+	// before anything else. An operation therefore runs together with its own workers, and "the other
+	// operation runs here" is one deviation at any branching point of the first.
+	res.threadG = map[int64]bool{}
+	own := res.threadG
+	h := &vrt.Harness{Name: sc.String(), DeviationCost: true, Body: func(x *vrt.Exec) { body(sc, x, res) },
+		Filter: func(kind vrt.OpKind, label string) bool {
+			return flt(kind, label) && (kind == vrt.OpHook || own[vrt.GoID()])
+		}}
+	ch := make(chan *vrt.Result, 1)
+	go func() { ch <- vrt.RunOnce(t, h, prefix) }()
+	select {
+	case r := <-ch:
+		return r, res
+	case <-time.After(hangTimeout):
+		return hangResult(sc, prefix)
+	}
 }
 
-func runFree(t *testing.T, sc Scenario) (res *result) {
-	res = &result{}
-	defer func() {
-		if r := recover(); r != nil {
-			res.verdicts = append(res.verdicts, verdict{"free-running/bubble-panic", fmt.Sprint(r)})
-			res.fatal = true
-		}
+func runFree(t *testing.T, sc Scenario) *result {
+	ch := make(chan *result, 1)
+	go func() {
+		res := &result{}
+		defer func() {
+			if r := recover(); r != nil {
+				res.verdicts = append(res.verdicts, verdict{"bubble-panic", fmt.Sprint(r)})
+				res.fatal = true
+			}
+			ch <- res
+		}()
+		synctest.Test(t, func(t *testing.T) { body(sc, nil, res) })
 	}()
-	synctest.Test(t, func(t *testing.T) { body(sc, nil, res) })
-	return res
+	select {
+	case res := <-ch:
+		return res
+	case <-time.After(hangTimeout):
+		_, res := hangResult(sc, nil)
+		return res
+	}
 }
 
 type Case struct {
@@ -1248,7 +1407,7 @@ func explore(t *testing.T, c *vlib.Ctx, sc Scenario, wide bool, bound int, ownsR
 	}
 	var rec func(prefix []int, root bool)
 	rec = func(prefix []int, root bool) {
-		if c.Expired() || fatal >= 5 {
+		if c.Expired() || fatal >= 5 || hung.Load() {
 			st.Complete = false
 			return
 		}
@@ -1257,6 +1416,11 @@ func explore(t *testing.T, c *vlib.Ctx, sc Scenario, wide bool, bound int, ownsR
 		if mine {
 			st.Executions++
 			st.Transitions += int64(len(x.Steps))
+			if root && os.Getenv("C39_TRACE") != "" {
+				for i, sp := range x.Steps {
+					fmt.Fprintf(os.Stderr, "%3d T%d %s enabled=%v\n", i, sp.Thread, sp.Label, sp.Enabled)
+				}
+			}
 			visit(x, res)
 			if res.fatal {
 				fatal++
@@ -1383,6 +1547,10 @@ func TestCheck(t *testing.T) {
 					c.Cap("budget expired before all scenarios were explored")
 					break
 				}
+				if hung.Load() {
+					c.Cap("an execution hung: exploration stopped")
+					break
+				}
 				own := c.Mine(int64(ji))
 				t0 := time.Now()
 				st := explore(t, c, j.sc, j.wide, j.bound, own, ctr, func(r *vrt.Result, res *result) {
@@ -1390,7 +1558,7 @@ func TestCheck(t *testing.T) {
 					if r.Preempts > 0 {
 						c.NontrivialN(1)
 					}
-					if r.Diverged != "" && !res.fatal {
+					if r.Diverged != "" && (!res.fatal || res.diverged) {
 						c.HarnessError(j.sc.String() + ": " + r.Diverged)
 						return
 					}
@@ -1431,6 +1599,9 @@ func TestCheck(t *testing.T) {
 						c.Cap("budget expired during the free-running smoke pass")
 						break
 					}
+					if hung.Load() {
+						break
+					}
 					res := runFree(t, j.sc)
 					c.Eval(1)
 					c.Extra("free_running_executions", 1)
@@ -1468,7 +1639,7 @@ func TestCheck(t *testing.T) {
 			old := runtime.GOMAXPROCS(1)
 			defer runtime.GOMAXPROCS(old)
 			r, res := runScheduled(t, cs.Scenario, cs.Wide, cs.Choices)
-			if r.Diverged != "" && !res.fatal {
+			if r.Diverged != "" && (!res.fatal || res.diverged) {
 				return false, "diverged: " + r.Diverged
 			}
 			var v []string
